@@ -337,6 +337,11 @@ func (cv CertValidity) toTimeStruct() (config.CertificateValidity, error) {
 		out.IsStatic = true
 	} else {
 		out.From = time.Now()
+		if len(cv.Until) != 0 {
+			out.RelativeEnd = "until " + cv.Until
+		} else if len(cv.Duration) != 0 {
+			out.RelativeEnd = "duration " + cv.Duration
+		}
 	}
 
 	//determine expiration time
